@@ -6,13 +6,13 @@ From TV Require Import Proofs.ConstsOk Proofs.LexEquivBase Proofs.LexEquivTrivia
 Require Import Lia ZifyBool ZifyN ZifyNat.
 
 (* ---- the languages of Spec/Lex.v: small facts -------------------------------------------------- *)
-Lemma star_app L t1 v1 t2 v2 : star L t1 v1 -> star L t2 v2 -> star L (t1 ++ t2) (v1 ++ v2).
+Lemma star_app (L : lang) t1 v1 t2 v2 : star L t1 v1 -> star L t2 v2 -> star L (t1 ++ t2) (v1 ++ v2).
 Proof.
   induction 1 as [|a va b vb Ha Hb IH]; intro H2; [exact H2|].
   rewrite <- !app_assoc. apply star_cons; [exact Ha|apply IH; exact H2].
 Qed.
 
-Lemma star_one L t v : L t v -> star L t v.
+Lemma star_one (L : lang) t v : L t v -> star L t v.
 Proof.
   intro H. rewrite <- (app_nil_r t), <- (app_nil_r v). apply star_cons; [exact H|apply star_nil].
 Qed.
@@ -48,9 +48,9 @@ Lemma us_digit_facts c t v : digit_class c -> us_digit c t v ->
 Proof.
   intros Hc [(b & Hb & -> & ->) | (t1 & v1 & t2 & v2 & -> & -> & [-> ->] & (b & Hb & -> & ->))];
     destruct (Hc b Hb) as [Ha Hu]; rewrite byte_eqb_n, N.eqb_sym, <- byte_eqb_n in Hu.
-  - split; [discriminate|]. cbn [forallb remove_us filter underscore]. rewrite Ha, Hb, Hu. auto.
-  - split; [discriminate|]. cbn [app forallb remove_us filter underscore byte_eqb Byte.eqb].
-    change (Byte.eqb x5f x5f) with true. cbn [negb]. rewrite Ha, Hb, Hu. auto.
+  - split; [discriminate|]. unfold remove_us, underscore. cbn [forallb filter]. rewrite Ha, Hb, Hu. auto.
+  - split; [discriminate|]. unfold remove_us, underscore. cbn [app forallb filter].
+    change (byte_eqb x5f x5f) with true. cbn [negb]. rewrite Ha, Hb, Hu. auto.
 Qed.
 
 Lemma star_us_facts c t v : digit_class c -> star (us_digit c) t v ->
@@ -251,14 +251,14 @@ Lemma unsigned_facts u ds : unsigned_dec_int u ds ->
 Proof.
   intros [(b & Hb & -> & ->) | (t1 & v1 & t2 & v2 & -> & -> & (b & Hb & -> & ->) & (ta & va & tb & vb & -> & -> & Ha & Hb2))].
   - destruct (digit_class_digit b Hb) as [Ha Hu]. rewrite byte_eqb_n, N.eqb_sym, <- byte_eqb_n in Hu.
-    cbn [forallb remove_us filter underscore]. rewrite Ha, Hb, Hu. cbn [negb andb].
+    unfold remove_us, underscore. cbn [forallb filter]. rewrite Ha, Hb, Hu. cbn [negb andb].
     repeat split; try reflexivity; [discriminate|]. exists b, []. auto.
   - pose proof (digit1_9_digit b Hb) as Hd. destruct (digit_class_digit b Hd) as [Ha0 Hu].
     rewrite byte_eqb_n, N.eqb_sym, <- byte_eqb_n in Hu.
     destruct (star_us_facts Abnf.digit (ta ++ tb) (va ++ vb) digit_class_digit (star_cons _ _ _ _ _ Ha Hb2)) as (A1 & A2 & A3).
     cbn [app forallb]. rewrite Ha0, Hd, A1, A2. cbn [andb].
     repeat split; try reflexivity.
-    + unfold remove_us in *. cbn [filter underscore]. rewrite Hu. cbn [negb]. rewrite A3. reflexivity.
+    + unfold remove_us, underscore in *. cbn [filter]. rewrite Hu. cbn [negb]. rewrite A3. reflexivity.
     + discriminate.
     + exists b, (ta ++ tb). auto.
 Qed.
@@ -284,16 +284,309 @@ Proof.
 Qed.
 
 Lemma dec_body_sound i x i' : dec_body i = Ok x i' ->
-  exists u ds, unsigned_dec_int u ds /\ splits i u i' /\ stops (byte_eqb x5f) (rest i').
+  exists u ds, unsigned_dec_int u ds /\ splits i u i'.
 Proof.
   unfold dec_body, digit. intro H. apply alt_inv in H as [H | [_ H]].
   - apply (digits_us_sound _ _ DIGIT_ok digit_class_digit _ _ DIGIT1_9_ok) in H as (b & t & v & Hb & St & S & Hs).
-    apply stops_us_or in Hs as [_ Hs].
     destruct St as [|t1 v1 t2 v2 H1 H2].
     + exists [b], [b]. split; [left; exists b; split; [apply digit1_9_digit; exact Hb|auto]|auto].
     + exists ([b] ++ t1 ++ t2), ([b] ++ v1 ++ v2). split; [|auto].
       right. exists [b], [b], (t1 ++ t2), (v1 ++ v2). repeat split; [exists b; auto|].
       exists t1, v1, t2, v2. auto.
   - apply pvoid_inv in H as (b & H). apply one_of_inv in H as [Hb S]. rewrite DIGIT_ok in Hb.
-    exists [b], [b]. split; [left; exists b; auto|]. split; [exact S|].
-Abort.
+    exists [b], [b]. split; [left; exists b; auto|exact S].
+Qed.
+
+(* [ minus / plus ] *)
+Lemma opt_sign_complete i sg neg r : sign sg neg -> rest i = sg ++ r -> stops is_sign r ->
+  opt (one_of is_sign) i = Ok (match sg with [] => None | b :: _ => Some b end) (adv sg i).
+Proof.
+  intros [[-> ->] | [[-> ->] | [-> ->]]] H Hr.
+  - rewrite adv_nil. apply opt_fails, one_of_fails. rewrite H. exact Hr.
+  - apply opt_ok. apply (one_of_ok is_sign i x2b r H). reflexivity.
+  - apply opt_ok. apply (one_of_ok is_sign i x2d r H). reflexivity.
+Qed.
+
+Lemma is_sign_cases b : is_sign b = true -> b = x2b \/ b = x2d.
+Proof.
+  unfold is_sign, plus, dash. intro H. apply orb_true_iff in H as [H | H]; apply byte_eqb_eq in H; auto.
+Qed.
+
+Lemma opt_sign_sound i o i' : opt (one_of is_sign) i = Ok o i' ->
+  exists sg neg, sign sg neg /\ splits i sg i' /\ o = match sg with [] => None | b :: _ => Some b end.
+Proof.
+  intro H. apply opt_inv in H as [(b & -> & H) | (-> & -> & _)].
+  - apply one_of_inv in H as [Hb S]. apply is_sign_cases in Hb as [-> | ->].
+    + exists [x2b], false. split; [right; left; auto|auto].
+    + exists [x2d], true. split; [right; right; auto|auto].
+  - exists [], false. split; [left; auto|]. split; [apply splits_nil|reflexivity].
+Qed.
+
+Lemma dec_int_unfold i :
+  dec_int i = context (unchecked_utf8 10 (taken (opt (one_of is_sign) ;;; dec_body))) i.
+Proof. reflexivity. Qed.
+
+Lemma digit_stops_sign b r : Abnf.digit b = true -> stops is_sign (b :: r).
+Proof. intro H. cbn [stops]. unfold is_sign. destruct (digit_not_sign b H) as [-> ->]. reflexivity. Qed.
+
+Lemma dec_int_complete i sg neg u ds r :
+  sign sg neg -> unsigned_dec_int u ds -> rest i = (sg ++ u) ++ r -> stops (us_or Abnf.digit) r ->
+  dec_int i = Ok (sg ++ u) (adv (sg ++ u) i).
+Proof.
+  intros Hs Hu H Hr. rewrite dec_int_unfold.
+  destruct (sign_facts sg neg Hs) as [As _]. destruct (unsigned_facts u ds Hu) as (Au & _ & _ & _ & b & u' & -> & Hb).
+  apply context_ok, unchecked_ok.
+  - rewrite <- app_assoc in H. apply (taken_ok _ _ tt).
+    + rewrite (bind_ok _ _ _ _ _ (opt_sign_complete i sg neg _ Hs H (digit_stops_sign b _ Hb))).
+      rewrite (dec_body_complete (adv sg i) (b :: u') ds r Hu (rest_adv _ _ _ H) Hr). rewrite adv_adv. reflexivity.
+    + apply (splits_adv i (sg ++ b :: u') r). rewrite <- app_assoc. exact H.
+  - apply utf8_ascii. rewrite forallb_app, As, Au. reflexivity.
+Qed.
+
+Lemma dec_int_sound i s i' : dec_int i = Ok s i' ->
+  splits i s i' /\ exists sg neg u ds, s = sg ++ u /\ sign sg neg /\ unsigned_dec_int u ds.
+Proof.
+  rewrite dec_int_unfold. intro H. apply context_inv, unchecked_inv in H as [H _].
+  apply taken_inv in H as (x & H & Es). apply bind_inv in H as (o & i1 & H1 & H).
+  apply opt_sign_sound in H1 as (sg & neg & Hs & S1 & _).
+  apply dec_body_sound in H as (u & ds & Hu & S2).
+  pose proof (splits_trans _ _ _ _ _ S1 S2) as S. rewrite (splits_taken _ _ _ S) in Es. subst s.
+  split; [exact S|]. exists sg, neg, u, ds. auto.
+Qed.
+
+(* dec_int fails without commitment when no digit follows the optional sign *)
+Lemma dec_int_fails i sg neg r : sign sg neg -> rest i = sg ++ r -> stops is_sign r -> stops Abnf.digit r ->
+  fails dec_int i.
+Proof.
+  intros Hs H Hr Hd. unfold fails. rewrite dec_int_unfold. apply context_fails, unchecked_fails, taken_fails.
+  unfold fails. rewrite (bind_ok _ _ _ _ _ (opt_sign_complete i sg neg r Hs H Hr)).
+  pose proof (rest_adv _ _ _ H) as R. unfold dec_body, digit. apply alt_fails.
+  - apply (digits_us_fails _ _ _ DIGIT1_9_ok). rewrite R. destruct r as [|b r]; [exact I|].
+    cbn [stops] in *. destruct (digit1_9 b) eqn:E; [|reflexivity]. apply digit1_9_digit in E. congruence.
+  - apply pvoid_fails, one_of_fails. rewrite R. destruct r; [exact I|]. cbn [stops] in *. rewrite DIGIT_ok. exact Hd.
+Qed.
+
+(* ---- hex-int / oct-int / bin-int = prefix d *( d / underscore d ) --------------------------------------------- *)
+Section Prefixed.
+  Variables (g c : byte -> bool) (w : N) (prefix : bytes).
+  Hypothesis Hg : forall b, g b = c b.
+  Hypothesis Hc : digit_class c.
+
+  Lemma cat_one_star_facts u ds : cat (one c) (star (us_digit c)) u ds ->
+    forallb ascii u = true /\ forallb c ds = true /\ remove_us u = ds /\ ds <> []
+    /\ exists b t v, u = b :: t /\ ds = b :: v /\ c b = true /\ star (us_digit c) t v.
+  Proof.
+    intros (t1 & v1 & t2 & v2 & -> & -> & (b & Hb & -> & ->) & St).
+    destruct (Hc b Hb) as [Ha Hu]. rewrite byte_eqb_n, N.eqb_sym, <- byte_eqb_n in Hu.
+    destruct (star_us_facts c t2 v2 Hc St) as (A1 & A2 & A3).
+    cbn [app forallb]. rewrite Ha, Hb, A1, A2. cbn [andb]. repeat split; try reflexivity.
+    - unfold remove_us, underscore in *. cbn [filter]. rewrite Hu. cbn [negb]. rewrite A3. reflexivity.
+    - discriminate.
+    - exists b, t2, v2. auto.
+  Qed.
+
+  Lemma prefixed_complete i u ds r :
+    cat (one c) (star (us_digit c)) u ds -> rest i = (prefix ++ u) ++ r -> stops (us_or c) r ->
+    prefixed_int w prefix (one_of g) i = Ok u (adv (prefix ++ u) i).
+  Proof.
+    intros Hu H Hr. destruct (cat_one_star_facts u ds Hu) as (Au & _ & _ & _ & b & t & v & -> & _ & Hb & St).
+    unfold prefixed_int, preceded. apply context_ok, unchecked_ok; [|apply utf8_ascii; exact Au].
+    rewrite <- app_assoc in H. rewrite (bind_ok _ _ _ _ _ (lit_ok prefix i _ H)).
+    pose proof (rest_adv _ _ _ H) as R. rewrite <- adv_adv.
+    apply (taken_ok _ _ tt); [|apply (splits_adv _ _ r R)]. apply cut_err_ok.
+    apply (digits_us_complete g c Hg Hc g c Hg _ b t v r R Hb St Hr).
+  Qed.
+
+  Lemma prefixed_sound i u i' : prefixed_int w prefix (one_of g) i = Ok u i' ->
+    splits i (prefix ++ u) i' /\ (exists ds, cat (one c) (star (us_digit c)) u ds) /\ stops (us_or c) (rest i').
+  Proof.
+    unfold prefixed_int, preceded. intro H. apply context_inv, unchecked_inv in H as [H _].
+    apply bind_inv in H as (x & i1 & H1 & H). apply lit_inv in H1 as [_ S1].
+    apply taken_inv in H as (y & H & Es). apply cut_err_inv in H.
+    apply (digits_us_sound g c Hg Hc g c Hg) in H as (b & t & v & Hb & St & S2 & Hs).
+    rewrite (splits_taken _ _ _ S2) in Es. subst u. split; [apply (splits_trans _ _ _ _ _ S1 S2)|].
+    split; [|exact Hs]. exists ([b] ++ v). exists [b], [b], t, v. repeat split; [exists b; auto|exact St].
+  Qed.
+
+  (* after the prefix the parser is committed: no digit means Cut *)
+  Lemma prefixed_fails i : (forall r, rest i <> prefix ++ r) -> fails (prefixed_int w prefix (one_of g)) i.
+  Proof.
+    intro H. unfold prefixed_int, preceded. apply context_fails, unchecked_fails, bind_fails, lit_fails. exact H.
+  Qed.
+
+  Variable radix : N.
+  Hypothesis Hr : forall b, c b = true -> radix_digit radix b = Some (digit_of b).
+  Hypothesis Hns : forall b, c b = true -> byte_eqb b plus = false /\ byte_eqb b dash = false.
+
+  Lemma int_of_prefixed u ds : cat (one c) (star (us_digit c)) u ds ->
+    int_of radix u = if in_i64 (Z.of_N (horner radix ds)) then TmOk (Z.of_N (horner radix ds)) else TmErr IntError.
+  Proof.
+    intro Hu. destruct (cat_one_star_facts u ds Hu) as (_ & Ac & Ar & Ane & _).
+    unfold int_of. rewrite Ar. rewrite (i64_unsigned radix c ds Hr Hns Ane Ac).
+    destruct (in_i64 (Z.of_N (horner radix ds))); reflexivity.
+  Qed.
+End Prefixed.
+
+(* ---- integer = dec-int / hex-int / oct-int / bin-int ----------------------------------------------------------------- *)
+Definition int_sub (s : bytes) : sub Z :=
+  match int_of 10 s with
+  | TmOk z => SubOk z
+  | TmErr c => SubCut (err_of c)
+  | TmPanic st => SubPanic st
+  end.
+
+Lemma int_of_dec sg neg u ds : sign sg neg -> unsigned_dec_int u ds ->
+  int_of 10 (sg ++ u) = if in_i64 (signed neg (horner 10 ds)) then TmOk (signed neg (horner 10 ds)) else TmErr IntError.
+Proof.
+  intros Hs Hu. destruct (sign_facts sg neg Hs) as [_ Rs].
+  destruct (unsigned_facts u ds Hu) as (_ & Ad & Ru & Ane & _).
+  unfold int_of. rewrite remove_us_app, Rs, Ru. rewrite (i64_signed sg neg ds Hs Ane Ad).
+  destruct (in_i64 (signed neg (horner 10 ds))); reflexivity.
+Qed.
+
+Lemma integer_is_dec i :
+  (forall c rr, rest i = x30 :: c :: rr -> c <> x78 /\ c <> x6f /\ c <> x62) ->
+  integer i = and_then dec_int int_sub i.
+Proof.
+  intro H. unfold integer. destruct (rest i) as [|a [|c rr]] eqn:E.
+  - reflexivity.
+  - cbn [firstn bytes_eqb]. rewrite !andb_false_r. reflexivity.
+  - cbn [firstn bytes_eqb]. destruct (byte_eqb a x30) eqn:A.
+    + apply byte_eqb_eq in A. subst a. destruct (H c rr eq_refl) as (N1 & N2 & N3).
+      apply byte_eqb_neq in N1, N2, N3. rewrite N1, N2, N3. reflexivity.
+    + reflexivity.
+Qed.
+
+Lemma integer_is_hex i r : rest i = [x30; x78] ++ r -> integer i = cut_err (try_map (int_of 16) hex_int) i.
+Proof. intro H. unfold integer. rewrite H. reflexivity. Qed.
+Lemma integer_is_oct i r : rest i = [x30; x6f] ++ r -> integer i = cut_err (try_map (int_of 8) oct_int) i.
+Proof. intro H. unfold integer. rewrite H. reflexivity. Qed.
+Lemma integer_is_bin i r : rest i = [x30; x62] ++ r -> integer i = cut_err (try_map (int_of 2) bin_int) i.
+Proof. intro H. unfold integer. rewrite H. reflexivity. Qed.
+
+(* a decimal token followed by a byte that cannot continue a bare word does not look like a prefix *)
+Lemma dec_not_prefixed sg neg u ds r c rr :
+  sign sg neg -> unsigned_dec_int u ds -> stops unquoted_key_char r ->
+  (sg ++ u) ++ r = x30 :: c :: rr -> c <> x78 /\ c <> x6f /\ c <> x62.
+Proof.
+  intros [[-> ->] | [[-> ->] | [-> ->]]] Hu Hr E; try discriminate. cbn [app] in E.
+  destruct Hu as [(b & Hb & -> & ->) | (t1 & v1 & t2 & v2 & -> & -> & (b & Hb & -> & ->) & _)].
+  - injection E as -> ->. cbn [stops] in Hr. repeat split; intros ->; discriminate.
+  - injection E as -> _. discriminate.
+Qed.
+
+Lemma unquoted_stops_digit r : stops unquoted_key_char r -> stops (us_or Abnf.digit) r.
+Proof. destruct r as [|b r]; [auto|]. cbn [stops]. unfold us_or. cls. lia. Qed.
+Lemma unquoted_stops_hexdig r : stops unquoted_key_char r -> stops (us_or Abnf.hexdig) r.
+Proof. destruct r as [|b r]; [auto|]. cbn [stops]. unfold us_or. cls. lia. Qed.
+Lemma unquoted_stops_0_7 r : stops unquoted_key_char r -> stops (us_or digit0_7) r.
+Proof. destruct r as [|b r]; [auto|]. cbn [stops]. unfold us_or. cls. lia. Qed.
+Lemma unquoted_stops_0_1 r : stops unquoted_key_char r -> stops (us_or digit0_1) r.
+Proof. destruct r as [|b r]; [auto|]. cbn [stops]. unfold us_or. cls. lia. Qed.
+
+(* what `integer` returns on a decimal token, in or out of range *)
+Lemma integer_dec_eval i t z r : dec_int_tok t z -> rest i = t ++ r -> stops unquoted_key_char r ->
+  integer i = if in_i64 z then Ok z (adv t i) else Cut (err_of IntError) i.
+Proof.
+  intros (sg & neg & u & ds & -> & Hs & Hu & ->) H Hr.
+  rewrite integer_is_dec.
+  - unfold and_then. rewrite (dec_int_complete i sg neg u ds r Hs Hu H (unquoted_stops_digit r Hr)).
+    unfold int_sub. rewrite (int_of_dec sg neg u ds Hs Hu).
+    destruct (in_i64 (signed neg (horner 10 ds))); reflexivity.
+  - intros c rr E. rewrite H in E. apply (dec_not_prefixed sg neg u ds r c rr Hs Hu Hr E).
+Qed.
+
+Lemma integer_hex_eval i t z r : hex_int_tok t z -> rest i = t ++ r -> stops (us_or Abnf.hexdig) r ->
+  integer i = if in_i64 z then Ok z (adv t i) else Cut (err_of IntError) i.
+Proof.
+  intros (u & ds & -> & Hu & ->) H Hr. rewrite (integer_is_hex i (u ++ r)) by (rewrite H, <- app_assoc; reflexivity).
+  unfold cut_err, try_map, hex_int, hexdig, HEX_PREFIX.
+  rewrite (prefixed_complete _ _ 11 _ HEXDIG_ok digit_class_hexdig i u ds r Hu H Hr).
+  rewrite (int_of_prefixed _ digit_class_hexdig 16 radix_digit_16 hexdig_not_sign u ds Hu).
+  destruct (in_i64 (Z.of_N (horner 16 ds))); reflexivity.
+Qed.
+
+Lemma integer_oct_eval i t z r : oct_int_tok t z -> rest i = t ++ r -> stops (us_or digit0_7) r ->
+  integer i = if in_i64 z then Ok z (adv t i) else Cut (err_of IntError) i.
+Proof.
+  intros (u & ds & -> & Hu & ->) H Hr. rewrite (integer_is_oct i (u ++ r)) by (rewrite H, <- app_assoc; reflexivity).
+  unfold cut_err, try_map, oct_int, OCT_PREFIX.
+  rewrite (prefixed_complete _ _ 12 _ DIGIT0_7_ok digit_class_0_7 i u ds r Hu H Hr).
+  rewrite (int_of_prefixed _ digit_class_0_7 8 radix_digit_8 digit0_7_not_sign u ds Hu).
+  destruct (in_i64 (Z.of_N (horner 8 ds))); reflexivity.
+Qed.
+
+Lemma integer_bin_eval i t z r : bin_int_tok t z -> rest i = t ++ r -> stops (us_or digit0_1) r ->
+  integer i = if in_i64 z then Ok z (adv t i) else Cut (err_of IntError) i.
+Proof.
+  intros (u & ds & -> & Hu & ->) H Hr. rewrite (integer_is_bin i (u ++ r)) by (rewrite H, <- app_assoc; reflexivity).
+  unfold cut_err, try_map, bin_int, BIN_PREFIX.
+  rewrite (prefixed_complete _ _ 13 _ DIGIT0_1_ok digit_class_0_1 i u ds r Hu H Hr).
+  rewrite (int_of_prefixed _ digit_class_0_1 2 radix_digit_2 digit0_1_not_sign u ds Hu).
+  destruct (in_i64 (Z.of_N (horner 2 ds))); reflexivity.
+Qed.
+
+(* completeness with the value, and "out of range => committed error", for all four bases *)
+Theorem integer_eval i t z r : integer_tok t z -> rest i = t ++ r -> stops unquoted_key_char r ->
+  integer i = if in_i64 z then Ok z (adv t i) else Cut (err_of IntError) i.
+Proof.
+  intros [H | [H | [H | H]]] E Hr.
+  - apply (integer_dec_eval i t z r H E Hr).
+  - apply (integer_hex_eval i t z r H E (unquoted_stops_hexdig r Hr)).
+  - apply (integer_oct_eval i t z r H E (unquoted_stops_0_7 r Hr)).
+  - apply (integer_bin_eval i t z r H E (unquoted_stops_0_1 r Hr)).
+Qed.
+
+Theorem integer_complete i t z r : integer_tok t z -> in_i64 z = true -> rest i = t ++ r ->
+  stops unquoted_key_char r -> integer i = Ok z (adv t i).
+Proof. intros H Hz E Hr. rewrite (integer_eval i t z r H E Hr), Hz. reflexivity. Qed.
+
+Theorem integer_out_of_range i t z r : integer_tok t z -> in_i64 z = false -> rest i = t ++ r ->
+  stops unquoted_key_char r -> integer i = Cut (err_of IntError) i.
+Proof. intros H Hz E Hr. rewrite (integer_eval i t z r H E Hr), Hz. reflexivity. Qed.
+
+Lemma tm_if_inv (c : bool) (z z' : Z) : (if c then TmOk z else TmErr IntError) = TmOk z' -> c = true /\ z' = z.
+Proof. destruct c; [|discriminate]. intro H. injection H as <-. auto. Qed.
+
+Lemma prefixed_integer_sound g c w prefix radix i z i' :
+  (forall b, g b = c b) -> digit_class c ->
+  (forall b, c b = true -> radix_digit radix b = Some (digit_of b)) ->
+  (forall b, c b = true -> byte_eqb b plus = false /\ byte_eqb b dash = false) ->
+  cut_err (try_map (int_of radix) (prefixed_int w prefix (one_of g))) i = Ok z i' ->
+  exists t, prefixed_int_tok prefix c radix t z /\ splits i t i' /\ in_i64 z = true /\ stops (us_or c) (rest i').
+Proof.
+  intros Hg Hc Hr Hns H. apply cut_err_inv, try_map_inv in H as (u & H & Hv).
+  apply (prefixed_sound g c w prefix Hg Hc) in H as (S & (ds & Hu) & Hs).
+  rewrite (int_of_prefixed c Hc radix Hr Hns u ds Hu) in Hv. apply tm_if_inv in Hv as [Hz ->].
+  exists (prefix ++ u). split; [exists u, ds; auto|auto].
+Qed.
+
+Theorem integer_sound i z i' : integer i = Ok z i' ->
+  exists t, integer_tok t z /\ splits i t i' /\ in_i64 z = true.
+Proof.
+  unfold integer. intro H.
+  destruct (bytes_eqb (firstn 2 (rest i)) [x30; x78]).
+  { apply (prefixed_integer_sound _ _ _ _ 16 _ _ _ HEXDIG_ok digit_class_hexdig radix_digit_16 hexdig_not_sign)
+      in H as (t & Ht & S & Hz & _).
+    exists t. split; [right; left; exact Ht|auto]. }
+  destruct (bytes_eqb (firstn 2 (rest i)) [x30; x6f]).
+  { apply (prefixed_integer_sound _ _ _ _ 8 _ _ _ DIGIT0_7_ok digit_class_0_7 radix_digit_8 digit0_7_not_sign)
+      in H as (t & Ht & S & Hz & _).
+    exists t. split; [right; right; left; exact Ht|auto]. }
+  destruct (bytes_eqb (firstn 2 (rest i)) [x30; x62]).
+  { apply (prefixed_integer_sound _ _ _ _ 2 _ _ _ DIGIT0_1_ok digit_class_0_1 radix_digit_2 digit0_1_not_sign)
+      in H as (t & Ht & S & Hz & _).
+    exists t. split; [right; right; right; exact Ht|auto]. }
+  apply and_then_inv in H as (s & H & Hv). apply dec_int_sound in H as (S & sg & neg & u & ds & -> & Hs & Hu).
+  rewrite (int_of_dec sg neg u ds Hs Hu) in Hv.
+  destruct (in_i64 (signed neg (horner 10 ds))) eqn:Hz; [|discriminate]. injection Hv as <-.
+  exists (sg ++ u). split; [left; exists sg, neg, u, ds; auto|auto].
+Qed.
+
+(* a committed failure of `integer` leaves no derivation with an acceptable follower *)
+Corollary integer_cut_only i e j : integer i = Cut e j ->
+  forall t z r, integer_tok t z -> rest i = t ++ r -> stops unquoted_key_char r -> in_i64 z = false.
+Proof.
+  intros H t z r Ht E Hr. rewrite (integer_eval i t z r Ht E Hr) in H.
+  destruct (in_i64 z); [discriminate|reflexivity].
+Qed.
